@@ -13,7 +13,7 @@ VERIF = os.path.dirname(os.path.dirname(os.path.abspath(__file__)))
 
 
 def sh(cmd, **kw):
-    return subprocess.run(cmd, shell=isinstance(cmd, str), capture_output=True, text=True, **kw)
+    return subprocess.run(cmd, shell=isinstance(cmd, str), capture_output=True, text=True, errors="replace", **kw)
 
 
 def fresh_copy():
@@ -40,7 +40,7 @@ def run_check(prop, d, tier="quick", seed=None):
         env["VERIF_SEED"] = str(seed)
     t = time.time()
     r = subprocess.run([sys.executable, os.path.join(VERIF, "check.py"), prop, "--tier", tier, "--noevidence"],
-                       capture_output=True, text=True, env=env)
+                       capture_output=True, text=True, errors="replace", env=env)
     return r.returncode, r.stdout, r.stderr, time.time() - t
 
 
